@@ -268,7 +268,13 @@ def judge_headers(headers, col=None, future=False):
             if col is not None:
                 col.case(nontrivial_id=text if len(kinds) >= 2 else None, label="route:header", sample=text)
             fn = getattr(res.module, f"h{i}")
-            rt_sig = ctx.get_signature(fn)
+            try:
+                rt_sig = ctx.get_signature(fn)
+            except Exception as e:
+                # the runtime view yields nothing at all for a header the def-node view handles
+                fails.append((f"signature-route-raises|{type(e).__name__}" + ("|future" if future else ""),
+                              f"`{text}`: deriving the signature from the function object raised {type(e).__name__}: {e}", headers[i]))
+                continue
             v = nested.get(f"loc{i}")
             st_sig = None
             if isinstance(v, V.CallableValue):
@@ -300,7 +306,9 @@ def header_strategy(draw):
     params = draw(st.sampled_from([p for p in c05.signatures(4) if p]))
     extra = {"va": ["Unpack[Tuple[int, str]]", "Unpack[Tuple[int, ...]]", "Unpack[tuple[str]]"], "vk": ["Unpack[TDk]"]}
     anns = [draw(st.sampled_from(ANN + [None] + extra.get(k, []) * 2)) for k, _, _ in params]
-    defaults = [draw(st.sampled_from(["0", "None", '"d"', "()", "..."])) for _ in params]
+    # besides plain literals: objects with unusual equality (equal to everything, equal to nothing, identity only) and
+    # an unhashable one
+    defaults = [draw(st.sampled_from(["0", "None", '"d"', "()", "...", "ANYTHING", "SENTINEL", "NAN", "[]", "NotImplemented", "E.a"])) for _ in params]
     ret = draw(st.sampled_from(ANN + [None, "None"]))
     return params, anns, ret, defaults
 
